@@ -6,6 +6,7 @@ import (
 	"time"
 
 	"github.com/gammazero/nexus/v3/simrt"
+	"github.com/gammazero/nexus/v3/transport/serialize"
 	"github.com/gammazero/nexus/v3/wamp"
 )
 
@@ -179,6 +180,24 @@ func isHarnessG(l string) bool {
 
 // CloseAll ends every session's transport and closes the router; then
 // requires that no goroutine of the router remains.
+// NewAnySess creates a session over a drawn transport: mostly the in-process
+// one, sometimes rawsocket over a SimConn or websocket over a FakeWS (real
+// peers and serializers on both ends).
+func NewAnySess(c *Ctx, w *World, g *Rand, name string, realm wamp.URI, qsize int, hello wamp.Dict) *Sess {
+	sz := []serialize.Serialization{serialize.JSON, serialize.MSGPACK, serialize.CBOR}[g.Intn(3)]
+	switch g.Weighted(4, 1, 1) {
+	case 1:
+		c.Probe("session_over_rawsocket")
+		if s := w.NewRawSess(c, name, realm, sz, 0, 0, qsize, NetFaults{Window: []int{0, 200, 4000}[g.Intn(3)]}, hello); s != nil {
+			return s
+		}
+	case 2:
+		c.Probe("session_over_websocket")
+		return w.NewWSSess(c, name, realm, sz, qsize, []int{2, 64}[g.Intn(2)], []time.Duration{0, 0, 9 * time.Second}[g.Intn(3)], hello)
+	}
+	return w.NewSess(name, realm, g.Bool(), qsize, hello)
+}
+
 func CloseAll(c *Ctx, w *World, checkLeft bool) {
 	for _, s := range w.Sess {
 		if !s.CliClosed {
